@@ -80,7 +80,7 @@ func exploreScenario(idx int, sc schedScenario) scenarioResult {
 		if res.Violation != "" || res.Harness != "" {
 			return
 		}
-		if int(res.Execs) >= capN {
+		if int(res.Execs) >= capN || (res.Execs%256 == 255 && schedDeadlinePassed()) {
 			res.Capped = true
 			return
 		}
@@ -178,6 +178,9 @@ func schedWorkerMain(args []string) int {
 		if W > 0 && i%W != w {
 			continue
 		}
+		if schedDeadlinePassed() { // the coordinator reports the scenarios that are missing as not explored
+			break
+		}
 		t0 := time.Now()
 		r := exploreScenario(i, sc)
 		if W == 0 {
@@ -193,6 +196,12 @@ func schedWorkerMain(args []string) int {
 
 var schedScenarios = map[string]func(tier string) []schedScenario{}
 
+// the coordinator hands its internal deadline to the workers (unix seconds); a worker that reaches it stops starting
+// scenarios and ends the one it is in as "capped": the run then ends with exit 0 and exhaustive=false
+var schedDeadline = func() int64 { n, _ := strconv.ParseInt(os.Getenv("VERIF_SCHED_DEADLINE"), 10, 64); return n }()
+
+func schedDeadlinePassed() bool { return schedDeadline > 0 && time.Now().Unix() >= schedDeadline }
+
 // runSched is the coordinator: shards the scenario list over worker processes and folds the results into the Ctx.
 func runSched(c *Ctx, id string) {
 	scs := schedScenarios[id](c.Tier)
@@ -204,6 +213,14 @@ func runSched(c *Ctx, id string) {
 		W = len(scs)
 	}
 	self, _ := os.Executable()
+	budget := 12 * time.Minute
+	if c.Tier == "thorough" {
+		budget = 60 * time.Minute
+	}
+	if b, err := strconv.Atoi(os.Getenv("VERIF_BUDGET_S")); err == nil && b > 0 {
+		budget = time.Duration(b) * time.Second
+	}
+	deadline := time.Now().Add(budget).Unix()
 	var mu sync.Mutex
 	var results []scenarioResult
 	var wg sync.WaitGroup
@@ -212,7 +229,7 @@ func runSched(c *Ctx, id string) {
 		go func(w int) {
 			defer wg.Done()
 			cmd := exec.Command(self, "sched-worker", id, c.Tier, strconv.Itoa(w), strconv.Itoa(W))
-			cmd.Env = append(os.Environ(), "GOMAXPROCS=1")
+			cmd.Env = append(os.Environ(), "GOMAXPROCS=1", "VERIF_SCHED_DEADLINE="+strconv.FormatInt(deadline, 10))
 			cmd.Stderr = os.Stderr
 			stdout, err := cmd.StdoutPipe()
 			if err != nil || cmd.Start() != nil {
@@ -241,7 +258,7 @@ func runSched(c *Ctx, id string) {
 	wg.Wait()
 	sort.Slice(results, func(i, j int) bool { return results[i].Idx < results[j].Idx })
 	if len(results) != len(scs) {
-		c.NotExhaustive(fmt.Sprintf("%d of %d scenarios reported", len(results), len(scs)))
+		c.NotExhaustive(fmt.Sprintf("%d of %d scenarios explored (internal deadline of %v, or a worker ended early)", len(results), len(scs), budget))
 	}
 	var execs, steps, points int64
 	distinct := map[string]bool{}
@@ -268,7 +285,7 @@ func runSched(c *Ctx, id string) {
 		}
 		if r.Capped {
 			fs.Complete = false
-			c.NotExhaustive("execution cap reached in scenario " + r.Name)
+			c.NotExhaustive("execution cap or internal deadline reached in scenario " + r.Name)
 		}
 		if r.Harness != "" {
 			// a harness problem is never reported as a violation of the property
